@@ -101,12 +101,50 @@ def copy_ast_replacing(node, old, new):
     return out
 
 
+PURE_STR_METHODS = {'split', 'rsplit', 'partition', 'rpartition', 'replace', 'removeprefix', 'removesuffix', 'lstrip', 'rstrip', 'strip',
+                    'startswith', 'endswith', 'lower', 'upper', 'title', 'capitalize', 'find', 'index', 'count', 'zfill', 'ljust', 'rjust'}
+
+
+def imm_eval_wrappers(facts):
+    """Module-level helpers that return `<parameter>.imm.eval(..)` (eval_immediate, whatever it is called): kept as calls, the
+    R-auipc rules judge them as one evaluation site with its position adjustment."""
+    cached = getattr(facts, '_imm_eval_wrappers', None)
+    if cached is None:
+        cached = set()
+        for name, fn in getattr(facts, 'funcs', {}).items():
+            params = {a.arg for a in fn.args.posonlyargs + fn.args.args}
+            rets = [n for n in ast.walk(fn) if isinstance(n, ast.Return)]
+            # every exit hands back the evaluated number (a helper that also answers None / a constant is a decision helper, walked)
+            returns = bool(rets) and all(n.value is not None and not isinstance(n.value, ast.Constant) for n in rets)
+            nested = any(isinstance(n, (ast.FunctionDef, ast.Lambda)) and n is not fn for n in ast.walk(fn))
+            def is_imm(e):
+                return isinstance(e, ast.Attribute) and e.attr == 'imm' and isinstance(e.value, ast.Name) and e.value.id in params
+            aliases = {t.id for n in ast.walk(fn) if isinstance(n, ast.Assign) and is_imm(n.value) for t in n.targets if isinstance(t, ast.Name)}
+            for c in ast.walk(fn):
+                # (the evaluation may be returned directly or through a local: `value = item.imm.eval(..); return value + k`, and the
+                # operand may be held in a local: `imm = item.imm; return imm.eval(..)`)
+                if (returns and not nested and isinstance(c, ast.Call) and isinstance(c.func, ast.Attribute) and c.func.attr == 'eval'
+                        and (is_imm(c.func.value) or (isinstance(c.func.value, ast.Name) and c.func.value.id in aliases))):
+                    cached.add(name)
+        try:
+            facts._imm_eval_wrappers = cached
+        except AttributeError:
+            pass
+    return cached
+
+
 def C(v):
     return ('const', v)
 
 
 def is_const(v):
     return isinstance(v, tuple) and v and v[0] == 'const'
+
+
+def contains_value(v, needle):
+    if isinstance(v, tuple):
+        return v[:len(needle)] == needle or any(contains_value(x, needle) for x in v)
+    return False
 
 
 def show(v, depth=0):
@@ -239,7 +277,7 @@ class Walker:
         self.exits_end_paths = exits_end_paths   # `sys.exit(x)` / `parser.error(..)` as statements are `raise SystemExit(..)`
         self.name_results = name_results
         self.inline_mode = inline            # 'default': effectful + small pure module-level helpers ; 'all': every module-level
-        self.opaque = set(opaque) | DEFAULT_OPAQUE   # function and local closure except the opaque ones
+        self.opaque = set(opaque) | DEFAULT_OPAQUE | imm_eval_wrappers(facts)   # function and local closure except the opaque ones
         self._lambdas = {}
         self._inline_stack = []
         self.loop_var = loop_var
@@ -317,6 +355,17 @@ class Walker:
                 recv = self.sym(node.func.value, st)
                 if is_const(recv) and isinstance(recv[1], str) and node.func.attr in ('lower', 'upper', 'strip') and not args:
                     return C(getattr(recv[1], node.func.attr)())
+                if is_const(recv) and isinstance(recv[1], str) and node.func.attr in PURE_STR_METHODS and not kwargs \
+                        and all(is_const(a) and isinstance(a[1], (str, int, type(None))) and not isinstance(a[1], bool) for a in args):
+                    # a pure method of a constant string with constant arguments: the value it computes
+                    try:
+                        r = getattr(recv[1], node.func.attr)(*[a[1] for a in args])
+                    except Exception:
+                        r = NotImplemented
+                    if isinstance(r, (str, bool, int)):
+                        return C(r)
+                    if isinstance(r, (list, tuple)) and all(isinstance(x, str) for x in r):
+                        return ('list' if isinstance(r, list) else 'tuple', tuple(C(x) for x in r))
                 if recv[0] == 'dict' and node.func.attr == 'get' and args and is_const(args[0]) and all(is_const(k) for k, _ in recv[1]):
                     for k, v in recv[1]:
                         if k == args[0]:
@@ -365,6 +414,12 @@ class Walker:
                 if node.func.id in ('list', 'tuple') and len(args) == 1 and not kwargs and args[0][0] in ('list', 'tuple') \
                         and not any(a[0] == 'star' for a in args[0][1]):
                     return (node.func.id, args[0][1])
+                sym_arg = self.__dict__.get('_eval_helpers_of')
+                if sym_arg is not None and node.func.id in self.facts.funcs and node.func.id not in self.opaque and node.func.id not in st.env \
+                        and any(a == sym_arg for a in args) and not any(a[0] == 'star' for a in args) and self._inline_stack.count(node.func.id) == 0:
+                    r = self.eval_fn(self.facts.funcs[node.func.id], args, kwargs, st, {})
+                    if r is not None:
+                        return r
                 pf = self.pure_expr_fn(node.func.id)
                 if pf is not None and not kwargs and not any(a[0] == 'star' for a in args):
                     params = [a.arg for a in pf.args.args]
@@ -380,6 +435,21 @@ class Walker:
                             return self.sym(pf.body[-1].value, s2)
                         finally:
                             self._inline_stack.pop()
+                if kwargs and node.func.id in self.facts.funcs and node.func.id not in st.env and not any(a[0] == 'star' for a in args):
+                    # f(a, y=b) for a module-level f(x, y): the same call written positionally
+                    fa = self.facts.funcs[node.func.id].args
+                    params = [x.arg for x in fa.posonlyargs + fa.args]
+                    kw = dict(kwargs)
+                    if not fa.vararg and not fa.kwarg and None not in kw and len(kw) == len(kwargs) and all(k in params[len(args):] for k in kw):
+                        rest = params[len(args):]
+                        take = []
+                        for pname in rest:
+                            if pname in kw:
+                                take.append(kw.pop(pname))
+                            else:
+                                break
+                        if not kw:
+                            return ('call', node.func.id, args + tuple(take), ())
                 return ('call', node.func.id, args, kwargs)
             if isinstance(node.func, (ast.Call, ast.Subscript, ast.IfExp)):
                 target = self.sym(node.func, st)
@@ -461,8 +531,17 @@ class Walker:
             return ('bool', 'and' if is_and else 'or', tuple(out))
         if isinstance(node, (ast.List, ast.Tuple, ast.Set)):
             kind = {ast.List: 'list', ast.Tuple: 'tuple', ast.Set: 'set'}[type(node)]
-            elts = tuple(('star', self.sym(e.value, st)) if isinstance(e, ast.Starred) else self.sym(e, st) for e in node.elts)
-            return (kind, elts)
+            elts = []
+            for e in node.elts:
+                if isinstance(e, ast.Starred):
+                    inner = self.sym(e.value, st)
+                    if inner[0] in ('list', 'tuple') and not any(x[0] == 'star' for x in inner[1]) and kind != 'set':
+                        elts.extend(inner[1])         # [a, *[b, c]] is [a, b, c]
+                    else:
+                        elts.append(('star', inner))
+                else:
+                    elts.append(self.sym(e, st))
+            return (kind, tuple(elts))
         if isinstance(node, ast.Dict):
             # a dict literal is a fresh mutable object: its creation site is part of its identity
             items = []
@@ -603,9 +682,23 @@ class Walker:
             if d is not None:
                 return self.sym(node.body if d else node.orelse, st)
             return ('ifexp', t, self.sym(node.body, st), self.sym(node.orelse, st))
+        if isinstance(node, ast.NamedExpr) and isinstance(node.target, ast.Name):
+            # (x := e): the value of e, and x is bound to it from here on
+            v = self.sym(node.value, st)
+            st.env[node.target.id] = v
+            return v
         if isinstance(node, ast.Starred):
             return ('star', self.sym(node.value, st))
         if isinstance(node, ast.JoinedStr):
+            if all(isinstance(p_, ast.Constant) or (isinstance(p_, ast.FormattedValue) and p_.conversion == -1 and p_.format_spec is None) for p_ in node.values) \
+                    and sum(isinstance(p_, ast.FormattedValue) for p_ in node.values) == 1 \
+                    and not any(isinstance(p_, ast.Constant) and ('{' in str(p_.value) or '}' in str(p_.value)) for p_ in node.values):
+                # f'..{x}..' with one plain replacement field is '..{}..'.format(x); the source text is kept for messages
+                tmpl = ''.join(str(p_.value) if isinstance(p_, ast.Constant) else '{}' for p_ in node.values)
+                arg = next(p_.value for p_ in node.values if isinstance(p_, ast.FormattedValue))
+                inner = self.sym(arg, st)
+                if inner[0] in ('call', 'mcall', 'attr') and tmpl == '{}':
+                    return ('mcall', C(tmpl), 'format', (inner,), ())
             return ('opaque', unparse(node))
         if isinstance(node, ast.Lambda):
             uid = self.new_fnval(node, dict(st.env))
@@ -1032,6 +1125,13 @@ class Walker:
                     f['ne'].add(b)
                 else:
                     f['eq'] = b
+            elif op in ('is', '==', 'is not', '!=') and a[0] == 'call' and a[1] == 'type' and len(a[2]) == 1 and not a[3] \
+                    and b[0] == 'name' and b[1] in self.facts.classes:
+                # type(x) is K: x is an instance of K (the negative outcome teaches nothing about subclasses)
+                if (op in ('is', '==')) == pol:
+                    st.fact(a[2][0])['isa'].add(b[1])
+                elif not any(self.facts.is_subclass(c, b[1]) for c in self.facts.classes if c != b[1]):
+                    st.fact(a[2][0])['nota'].add(b[1])          # K has no subclasses: "its type is not K" is "not an instance of K"
             elif op in ('in', 'not in') and b[0] in ('list', 'tuple', 'set') and all(is_const(x) for x in b[1]):
                 positive = (op == 'in') == pol
                 f = st.fact(a)
@@ -1148,7 +1248,7 @@ class Walker:
             return cache[name]
         fn = self.facts.funcs.get(name)
         res = False
-        if fn is not None and not fn.args.vararg and not fn.args.kwarg:
+        if fn is not None and not fn.args.kwarg:
             params = {a.arg for a in fn.args.args + fn.args.kwonlyargs}
             for n in ast.walk(fn):
                 if isinstance(n, ast.Call) and isinstance(n.func, ast.Attribute) and isinstance(n.func.value, ast.Name) \
@@ -1173,7 +1273,7 @@ class Walker:
             return cache[name]
         fn = self.facts.funcs.get(name)
         ok = False
-        if fn is not None and not fn.args.vararg and name not in self.opaque:
+        if fn is not None and name not in self.opaque:
             n_stmt = sum(1 for n in ast.walk(fn) if isinstance(n, ast.stmt))
             has_loop = any(isinstance(n, (ast.For, ast.While, ast.Try, ast.With, ast.FunctionDef)) and n is not fn for n in ast.walk(fn))
             ok = n_stmt <= 30 and not has_loop
@@ -1213,7 +1313,11 @@ class Walker:
     def small_closure(self, fn):
         """A local helper (`def emit(x): nonlocal position; position += x.size(); out.append(x)`) whose effects belong to the
         enclosing function's path: no loops, no nested definitions."""
-        return not any(isinstance(n, (ast.For, ast.While, ast.FunctionDef, ast.Lambda, ast.Yield, ast.YieldFrom)) and n is not fn
+        def search_loop(n):
+            # for ..: if <test>: X = <key>; break   -- the first-match search: walked as such wherever it stands
+            return (isinstance(n, ast.For) and not n.orelse and len(n.body) == 1 and isinstance(n.body[0], ast.If) and not n.body[0].orelse
+                    and len(n.body[0].body) == 2 and isinstance(n.body[0].body[0], ast.Assign) and isinstance(n.body[0].body[1], ast.Break))
+        return not any(isinstance(n, (ast.For, ast.While, ast.FunctionDef, ast.Lambda, ast.Yield, ast.YieldFrom)) and n is not fn and not search_loop(n)
                        for n in ast.walk(fn))
 
     def inline_target(self, call, st):
@@ -1238,10 +1342,11 @@ class Walker:
         if len(self._inline_stack) >= (8 if self.inline_mode == 'all' else 4):
             return None
         fn = self.facts.funcs[name]
-        if fn.args.vararg:
-            return None
         if self.inline_mode == 'all':
             return fn
+        sym_arg = self.__dict__.get('_eval_helpers_of')
+        if sym_arg is not None and not fn.args.kwarg and any(not isinstance(a, ast.Starred) and self.sym(a, st) == sym_arg for a in call.args):
+            return fn           # a helper of the predicate that is being applied: walked like the local closure it replaces
         if self.effectful_helper(name) or self.small_pure_helper(name):
             return fn
         return None
@@ -1252,7 +1357,7 @@ class Walker:
         if fn is None:
             return None
         pos = [a.arg for a in fn.args.args]
-        if len(call.args) > len(pos):
+        if len(call.args) > len(pos) and not fn.args.vararg:
             return None
         is_closure = call.func.id in st.env
         env = dict(st.env) if is_closure else {}
@@ -1262,6 +1367,9 @@ class Walker:
                 env = dict(cenv)
         for p_, a in zip(pos, call.args):
             env[p_] = self.sym(a, st)
+        if fn.args.vararg:
+            # def f(a, *rest): the surplus positional arguments, as a tuple
+            env[fn.args.vararg.arg] = ('tuple', tuple(self.sym(a, st) for a in call.args[len(pos):]))
         extra = []
         names = set(pos) | {a.arg for a in fn.args.kwonlyargs}
         for k in call.keywords:
@@ -1428,6 +1536,18 @@ class Walker:
                         continue
                 if not (v[0] in ('name',) and isinstance(e, ast.Name) and e.id.startswith('__inl')):
                     s.events.append(self.effect(v, node))
+                if (isinstance(e, ast.Call) and isinstance(e.func, ast.Attribute) and isinstance(e.func.value, ast.Name) and e.func.attr in ('append', 'extend')
+                        and v[0] == 'mcall' and v[1][0] == 'list' and len(v[3]) == 1 and not v[4] and s.env.get(e.func.value.id) == v[1]):
+                    # a list display held in a local grows: the local's value is kept up to date (`leading = []; leading.append(x)`)
+                    if e.func.attr == 'append':
+                        s.env[e.func.value.id] = ('list', v[1][1] + (v[3][0],))
+                    elif v[3][0][0] in ('list', 'tuple') and not any(x[0] == 'star' for x in v[3][0][1]):
+                        s.env[e.func.value.id] = ('list', v[1][1] + tuple(v[3][0][1]))
+                    else:
+                        s.env[e.func.value.id] = ('havoc', e.func.value.id, 'extended@{}'.format(getattr(node, 'lineno', 0)))
+                elif (isinstance(e, ast.Call) and isinstance(e.func, ast.Attribute) and isinstance(e.func.value, ast.Name) and v[0] == 'mcall' and v[1][0] == 'list'
+                      and e.func.attr in ('append', 'extend', 'insert', 'pop', 'remove', 'clear', 'sort', 'reverse') and s.env.get(e.func.value.id) == v[1]):
+                    s.env[e.func.value.id] = ('havoc', e.func.value.id, 'mutated@{}'.format(getattr(node, 'lineno', 0)))
                 out.append(s)
             return out
         if isinstance(node, ast.Assign):
@@ -1618,6 +1738,11 @@ class Walker:
                 env[node.name] = st.env[node.name]
             else:
                 st.env[node.name] = ('closure', node.name, id(node))
+            for dec in reversed(getattr(node, 'decorator_list', [])):
+                # @decorator: the name is bound to decorator(function); a decorator that is not applied in place leaves it unknown
+                dv = self.sym(dec, st)
+                made = self.eval_call(dv, (st.env[node.name],), (), st) if isinstance(dv, tuple) and dv and dv[0] in ('closure', 'lambda', 'obj') else None
+                st.env[node.name] = made if made is not None else ('havoc', node.name, 'decorated@{}'.format(node.lineno))
             return [st]
         if isinstance(node, (ast.Import, ast.ImportFrom)):
             st.events.append(('import', unparse(node), node))
@@ -1698,6 +1823,13 @@ class Walker:
             if objs is not None:
                 # the same first-match search over a list of rule objects: presented as the table it spells out
                 var, table, text = objs
+                it = ('mcall', table, 'items', ())
+                keys = (var, [k[1] for k, _ in table[1]], text)
+        if keys is None:
+            rows = self.search_rows(node, it, st)
+            if rows is not None:
+                # the first-match search over rows of any literal shape, possibly with further tests next to the all(...)
+                var, table, text = rows
                 it = ('mcall', table, 'items', ())
                 keys = (var, [k[1] for k, _ in table[1]], text)
         if keys is not None:
@@ -1825,7 +1957,11 @@ class Walker:
 
     def dict_update_loop(self, node):
         """(dict expression, equivalent DictComp node) for a loop that rewrites the values of the dict it iterates, else None."""
-        if node.orelse or not (isinstance(node.target, ast.Tuple) and len(node.target.elts) == 2 and all(isinstance(e, ast.Name) for e in node.target.elts)):
+        if node.orelse:
+            return None
+        if isinstance(node.target, ast.Name):
+            return self.dict_update_loop_keys(node)
+        if not (isinstance(node.target, ast.Tuple) and len(node.target.elts) == 2 and all(isinstance(e, ast.Name) for e in node.target.elts)):
             return None
         it = node.iter
         if isinstance(it, ast.Call) and isinstance(it.func, ast.Name) and it.func.id in ('list', 'tuple') and len(it.args) == 1:
@@ -1853,6 +1989,54 @@ class Walker:
         ast.copy_location(comp, node)
         ast.fix_missing_locations(comp)
         return it.func.value, comp
+
+    def dict_update_loop_keys(self, node):
+        """for k in D [/ D.keys() / list(D)]: [if test(D[k]):] D[k] = f(D[k])  /  D[k] -= d     is
+        D.update({k: f(v) for k, v in D.items() [if test(v)]})   (values are replaced, keys are not added: iterating is safe)"""
+        it = node.iter
+        if isinstance(it, ast.Call) and isinstance(it.func, ast.Name) and it.func.id in ('list', 'tuple', 'sorted') and len(it.args) == 1 and not it.keywords:
+            it = it.args[0]
+        if isinstance(it, ast.Call) and isinstance(it.func, ast.Attribute) and it.func.attr == 'keys' and not it.args and not it.keywords:
+            it = it.func.value
+        if not isinstance(it, ast.Name):
+            return None
+        dname, k = it.id, node.target.id
+        body = node.body
+        tests = []
+        while len(body) == 1 and isinstance(body[0], ast.If) and not body[0].orelse:
+            tests.append(body[0].test)
+            body = body[0].body
+        if len(body) != 1:
+            return None
+        stmt = body[0]
+
+        def is_cell(t):
+            return isinstance(t, ast.Subscript) and isinstance(t.value, ast.Name) and t.value.id == dname and isinstance(t.slice, ast.Name) and t.slice.id == k
+        vname = '_value_of_{}'.format(k)
+        if isinstance(stmt, ast.Assign) and len(stmt.targets) == 1 and is_cell(stmt.targets[0]):
+            value = stmt.value
+        elif isinstance(stmt, ast.AugAssign) and is_cell(stmt.target):
+            value = ast.BinOp(left=ast.Subscript(value=ast.Name(id=dname, ctx=ast.Load()), slice=ast.Name(id=k, ctx=ast.Load()), ctx=ast.Load()),
+                              op=stmt.op, right=stmt.value)
+        else:
+            return None
+
+        class Sub(ast.NodeTransformer):
+            def visit_Subscript(self, n):
+                if is_cell(n) and isinstance(n.ctx, ast.Load):
+                    return ast.Name(id=vname, ctx=ast.Load())
+                return self.generic_visit(n)
+        new_tests = [Sub().visit(copy_ast(t)) for t in tests]
+        new_value = Sub().visit(copy_ast(value))
+        if any(isinstance(n, ast.Name) and n.id == dname for t in new_tests + [new_value] for n in ast.walk(t)):
+            return None
+        items = ast.Call(func=ast.Attribute(value=ast.Name(id=dname, ctx=ast.Load()), attr='items', ctx=ast.Load()), args=[], keywords=[])
+        comp = ast.DictComp(key=ast.Name(id=k, ctx=ast.Load()), value=new_value,
+                            generators=[ast.comprehension(target=ast.Tuple(elts=[ast.Name(id=k, ctx=ast.Store()), ast.Name(id=vname, ctx=ast.Store())], ctx=ast.Store()),
+                                                          iter=items, ifs=new_tests, is_async=0)])
+        ast.copy_location(comp, node)
+        ast.fix_missing_locations(comp)
+        return ast.Name(id=dname, ctx=ast.Load()), comp
 
     def unrolled_for(self, node, it, st, done, only_truthy=False):
         """`for x in (<literal elements>)`: the body is walked once per element, in order (with only_truthy: for the elements
@@ -1919,12 +2103,89 @@ class Walker:
                 return None
             keys.append(k[1])
         asg = iff.body[0]
-        if not (isinstance(asg.targets[0], ast.Name) and isinstance(node.target, ast.Tuple)
+        if not (isinstance(asg.targets[0], ast.Name) and isinstance(node.target, ast.Tuple) and len(node.target.elts) == 2
+                and all(isinstance(e, ast.Name) for e in node.target.elts)
                 and isinstance(asg.value, ast.Name) and asg.value.id == node.target.elts[0].id):
             return None
         if node.orelse and node.orelse[0].targets[0].id != asg.targets[0].id:
             return None
         return asg.targets[0].id, keys, unparse(iff.test)
+
+    def search_rows(self, node, it, st):
+        """`for <target> in ROWS: if [tests and] all(p(args) for p in <preds>) [and tests]: X = <key>; break` with ROWS a literal
+        sequence of rows (or the items of a dict display), the target any nesting of names: every row is bound to the target and the
+        test evaluated for it.  A test next to the all(...) becomes a predicate of its own, in its place ('symtest', value, args).
+        -> (X, ('dict', ((key, ('list', predicates)), ..)), text of the test), else None."""
+        if it[0] == 'mcall' and it[2] == 'items' and not it[3] and it[1][0] == 'dict' and all(isinstance(pr, tuple) and len(pr) == 2 and is_const(pr[0]) for pr in it[1][1]):
+            elems = [('tuple', (k, v)) for k, v in it[1][1]]
+        elif it[0] in ('list', 'tuple') and not any(e[0] == 'star' for e in it[1]):
+            elems = list(it[1])
+        elif (it[0] == 'dict' or (it[0] == 'mcall' and it[2] == 'keys' and not it[3] and it[1][0] == 'dict')) \
+                and all(isinstance(pr, tuple) and len(pr) == 2 and is_const(pr[0]) for pr in (it if it[0] == 'dict' else it[1])[1]):
+            elems = [k for k, _ in (it if it[0] == 'dict' else it[1])[1]]          # for key in TABLE: ... TABLE[key] ...
+        else:
+            return None
+        if not elems or len(elems) > 64:
+            return None
+        # plain bindings in front of the test (`preds = criteria[name]`) are part of the row
+        prefix = [b for b in node.body[:-1]]
+        if not all(isinstance(b, ast.Assign) and len(b.targets) == 1 and isinstance(b.targets[0], (ast.Name, ast.Tuple))
+                   and not any(isinstance(n, ast.Call) for n in ast.walk(b.value)) for b in prefix):
+            return None
+        if not (node.body and isinstance(node.body[-1], ast.If) and not node.body[-1].orelse):
+            return None
+        if node.orelse and not (len(node.orelse) == 1 and isinstance(node.orelse[0], ast.Assign) and len(node.orelse[0].targets) == 1
+                                and isinstance(node.orelse[0].targets[0], ast.Name)):
+            return None
+        iff = node.body[-1]
+        if not (len(iff.body) == 2 and isinstance(iff.body[0], ast.Assign) and isinstance(iff.body[1], ast.Break)
+                and len(iff.body[0].targets) == 1 and isinstance(iff.body[0].targets[0], ast.Name)):
+            return None
+        if not any(isinstance(n, ast.Call) and isinstance(n.func, ast.Name) and n.func.id == 'all' for n in ast.walk(iff.test)):
+            return None
+        var = iff.body[0].targets[0].id
+        if node.orelse and node.orelse[0].targets[0].id != var:
+            return None
+        bound = {n.id for n in ast.walk(node.target) if isinstance(n, ast.Name)} | {n.id for b in prefix for n in ast.walk(b.targets[0]) if isinstance(n, ast.Name)}
+        pairs = []
+        shape = None
+        self.__dict__['_capture_all'] = self.__dict__.get('_capture_all', 0) + 1
+        try:
+            for e in elems:
+                s2 = st.clone()
+                try:
+                    self.assign(node.target, e, s2, node)
+                    for b in prefix:
+                        self.assign(b.targets[0], self.sym(b.value, s2), s2, b)
+                    tv = self.sym(iff.test, s2)
+                    key = self.sym(iff.body[0].value, s2)
+                except AnalysisError:
+                    return None
+                if not (is_const(key) and isinstance(key[1], str)):
+                    return None
+                parts = list(tv[2]) if tv[0] == 'bool' and tv[1] == 'and' else [tv]
+                alls = [x for x in parts if x[0] == 'allpreds']
+                if len(alls) != 1 or alls[0][1][0] not in ('list', 'tuple'):
+                    return None
+                args = alls[0][2]
+                if shape is None:
+                    shape = args
+                elif shape != args:
+                    return None
+                preds = []
+                for x in parts:
+                    if x[0] == 'allpreds':
+                        preds.extend(x[1][1])
+                    elif any(contains_value(x, ('var', b)) or contains_value(x, ('havoc', b)) for b in bound) or contains_value(x, ('unpack',)):
+                        return None
+                    else:
+                        preds.append(('symtest', x, args, iff.test))
+                pairs.append((key, ('list', tuple(preds))))
+        finally:
+            self.__dict__['_capture_all'] -= 1
+        if len({k for k, _ in pairs}) != len(pairs):
+            return None
+        return var, ('dict', tuple(pairs)), unparse(iff.test)
 
     def search_objects(self, node, it, st):
         """`for r in RULES: if <r's predicates all hold for the arguments>: X = <r's key>; break` with RULES a literal list of
